@@ -413,12 +413,23 @@ def compare(case, i, line, ir, mr):
     if line.startswith('(ops frames ') or line.startswith('(ops aggx '):
         return ir if ir.startswith('violation') else None
     if proto.same_reply(ir, mr):
+        # same_reply compares (D ..) nodes as sets: the ORDER of the result columns of the operators (theorems
+        # binopF_columns_sorted / "the common header in its own order") is compared here; the aggregates' order is pandas' business
+        if line.startswith('(ops binf ') and _header(ir) != _header(mr):
+            return ('divergence', 'same frame, columns in the order %s; the model gives %s' % (_header(ir), _header(mr)))
         return None
     if ir.startswith('violation'):
         return ir
     if 'F:inf' in ir or 'F:-inf' in ir:
         return 'the result holds +-inf: %s' % ir
     return 'implementation %s, model %s' % (ir, mr)
+
+
+def _header(reply):
+    if not reply.startswith('ok (df '):
+        return None
+    sx = proto.parse(reply[3:])
+    return [proto.unhex(kv[0]) for kv in sx[1][2][1:]]
 
 
 def nontrivial(line, reply):
